@@ -100,6 +100,7 @@ def opF (op : Op) (id : Nat) : Nat → Option Val → FRet Val := fun att inp =>
     | 'a' => .write (Val.app id inp) op.retry
     | 'd' => .decline
     | 'z' => .write (inp.getD Val.empty) op.retry     -- returns its input unchanged
+    | 'c' => .write Val.empty op.retry               -- clears to the empty value (non-nil; the codec encodes it to zero bytes)
     | _ => .fail false
 
 def showFRet : FRet Val → String
